@@ -15,6 +15,7 @@ type Config struct {
 	PreemptBound int           // <0: unbounded
 	Horizon      int           // maximal number of transitions per execution
 	NoCache      bool          // disable the happens-before state cache
+	NoReduce     bool          // disable the begin/spawn/join persistent-set reduction
 	Budget       time.Duration // wall-clock budget; 0 = none.  Hitting it makes the result non-exhaustive.
 	MaxExec      int64
 	Stall        time.Duration // watchdog for a thread that does not reach a point
@@ -145,6 +146,17 @@ loop:
 		if len(tr) == 0 {
 			x.mu.Unlock()
 			break
+		}
+		// Reduction: begin, spawn and join (of an ended thread) touch no shared object and
+		// commute with every transition of every other thread now and later, so {t} is
+		// a persistent set: take it without branching.
+		if !e.Cfg.NoReduce {
+			for _, a := range tr {
+				if k := a.t.pend.kind; k == opBegin || k == opSpawn || k == opJoin {
+					tr = []trans{a}
+					break
+				}
+			}
 		}
 		if len(x.trace) >= e.Cfg.Horizon {
 			x.mu.Unlock()
